@@ -332,13 +332,17 @@ type runner struct {
 	evIdx int
 
 	// send direction (library -> peer)
-	written   []byte
-	sent      int // bytes observed in data packets
-	nPackets  int
-	nWrites   int
-	sawClose  bool
-	sendErr   bool
-	wrapCheck bool
+	written  []byte
+	sent     int // bytes observed in data packets
+	nPackets int
+	nWrites  int
+	sawClose bool
+	// the peer closed the stream: id of its request; the library has answered it
+	peerCloseID    string
+	ackedPeerClose bool
+	writeFailed    bool
+	sendErr        bool
+	wrapCheck      bool
 
 	// receive direction (peer -> library)
 	q        []byte // accepted and not yet read
@@ -537,6 +541,9 @@ func (r *runner) scanSent() {
 			if r.sawClose {
 				r.failf("data packet written after the library's close request: %s", e)
 			}
+			if r.ackedPeerClose {
+				r.failf("data packet written after the library had acknowledged the peer's close request (the peer has forgotten the stream by then: the bytes are lost): %s", e)
+			}
 			raw, err := base64.StdEncoding.Strict().DecodeString(e.b64)
 			if err != nil {
 				r.failf("data packet #%d is not valid base64 (%v): %s", r.nPackets, err, e)
@@ -553,6 +560,10 @@ func (r *runner) scanSent() {
 		case "close":
 			if r.conn != nil && e.sid == r.sid {
 				r.sawClose = true
+			}
+		case "result":
+			if r.peerCloseID != "" && e.id == r.peerCloseID {
+				r.ackedPeerClose = true
 			}
 		}
 	}
@@ -952,6 +963,7 @@ func (r *runner) libClose() {
 func (r *runner) peerClose() {
 	id := r.id("cl")
 	from := r.p.count()
+	r.peerCloseID = id
 	atomic.AddInt32(&r.stim, 1)
 	r.tracef("peer: close id=%s sid=%q", id, r.sid)
 	r.sv.Feed(closeIQ(id, r.sid))
@@ -966,6 +978,12 @@ func (r *runner) peerClose() {
 		r.failf("close request for the open stream %q answered with %s", r.sid, e)
 	}
 	r.scanSent()
+	if r.sent < len(r.written) && !r.writeFailed {
+		r.failf("the peer closed the stream and the library acknowledged it, but of the %d bytes its Write calls had accepted only %d were delivered before the acknowledgement (the rest can no longer be delivered)", len(r.written), r.sent)
+	}
+	if r.sent < len(r.written) {
+		r.class("close:peer-with-undelivered-bytes")
+	}
 	r.closed = "peer"
 	r.class("close:peer")
 }
